@@ -198,6 +198,8 @@ def ltf_plan(**args):
             dftlen = Lmin
 
         nseg = int(round_half_up((N - dftlen) / (xov * dftlen) + 1))
+        # There are only N - dftlen + 1 distinct segment positions
+        nseg = min(nseg, N - dftlen + 1)
         if nseg == 1:
             dftlen = N
 
@@ -218,7 +220,8 @@ def ltf_plan(**args):
     for j in range(nf):
         L_j = int(L_arr[j])
         L_arr[j] = L_j
-        averages = int(round_half_up(((N - L_j) / (1 - olap)) / L_j + 1))
+        # Use the segment count decided in the scheduler loop (K == navg == len(D))
+        averages = int(K_arr[j])
         navg_arr.append(averages)
 
         if averages == 1:
@@ -337,6 +340,8 @@ def vectorized_ltf_plan(**args):
     r_map = fs / L_grid
     K_map = np.round((N - L_grid) / (xov * L_grid) + 1).astype(np.int64)
     L_map = L_grid.astype(np.int64)
+    # There are only N - L + 1 distinct segment positions
+    K_map = np.minimum(K_map, N - L_map + 1)
 
     # --- Phase 2: Walk the map ---
     f_out, r_out, L_out, K_out = [], [], [], []
